@@ -317,7 +317,9 @@ class Evaluator:
             self.decisions = []
             self.events = []
             self._pending: List[List[bool]] = []
-            env = Env(self._bind_entry(fi, make_args(), body), None, fi.module)
+            bound_args = self._bind_entry(fi, make_args(), body)
+            originals = dict(bound_args)  # the objects the caller handed in (a rebinding of the parameter name does not change them)
+            env = Env(bound_args, None, fi.module)
             if body is None and hasattr(fi.node, "args"):
                 # parameters the harness leaves out take the default the source gives them
                 a_ = fi.node.args
@@ -340,6 +342,7 @@ class Evaluator:
                     out = Outcome("raise", r.typ, env, list(self.events), list(self.decisions), exc=r)
             finally:
                 pass
+            out.args = originals
             outcomes.append(out)
             STATS["paths"] += 1
             for alt in self._pending:
